@@ -19,12 +19,15 @@ fn main() {
             i += 1;
         }
     }
-    vh::quiet_panics();
+    if std::env::var("VH_LOUD").is_err() {
+        vh::quiet_panics();
+    }
     let code = match args[1].as_str() {
         "reader-hist" => vh::reader_hist::run(&opts),
         "writer-hist" => vh::writer_hist::run(&opts),
         "parsed" => vh::parsed_cases::run(&opts),
         "scan-vectors" => vh::scan_vectors::run(&opts),
+        "parsers" => vh::parser_drive::run(&opts),
         other => {
             eprintln!("unknown subcommand {other}");
             2
